@@ -478,7 +478,7 @@ func RunParent(o ParentOpts) int {
 
 	// ---- evidence ----
 	var evals, nontriv, skipped int64
-	var samples []any
+	samples := []any{}
 	groups := map[string]any{}
 	for _, g := range merged.GroupOrder {
 		gs := merged.Groups[g]
